@@ -833,6 +833,11 @@ func (r *envelopingReader) Read(data []byte) (n int, err error) {
 	if r.err != nil {
 		return 0, r.err
 	}
+	if len(data) == 0 {
+		// Nothing can be delivered; in particular "zero bytes read" below
+		// must not be taken for the end of the current message.
+		return 0, nil
+	}
 	if r.envRemain == 0 {
 		// Only read message data (or move on to the next message) once
 		// the current envelope has been completely handed out.
@@ -982,6 +987,11 @@ func (r *transformingReader) Read(data []byte) (n int, err error) {
 	defer r.mu.Unlock()
 	if r.err != nil {
 		return 0, r.err
+	}
+	if len(data) == 0 {
+		// Nothing can be delivered; in particular "zero bytes read" below
+		// must not be taken for the end of the current message.
+		return 0, nil
 	}
 
 	for {
